@@ -1,9 +1,9 @@
 ENGINES = [
- {"name": "E1 small-scope enumerator", "path": "vf/enum.py", "serves_properties": ["C01", "C02", "C03", "C05", "C06", "C08", "C16"],
+ {"name": "E1 small-scope enumerator", "path": "vf/enum.py", "serves_properties": ["C01", "C02", "C03", "C05", "C06", "C08", "C09", "C10", "C12", "C13", "C16", "C17", "C18", "C19"],
   "kind_free_text": "exhaustive enumeration of full products and of all vectors with <= d non-default coordinates over declared finite alphabets, run on the real code"},
- {"name": "E2 explicit-state search", "path": "vf/bfs.py", "serves_properties": ["C07", "C15", "C16"],
+ {"name": "E2 explicit-state search", "path": "vf/bfs.py", "serves_properties": ["C07", "C11", "C13", "C15", "C16"],
   "kind_free_text": "explicit-state exploration of real objects / automata with reference-model agreement on every transition"},
- {"name": "E3 fault enumerator", "path": "vf/props/c04.py", "serves_properties": ["C04", "C06"],
+ {"name": "E3 fault enumerator", "path": "vf/props/c04.py", "serves_properties": ["C04", "C06", "C14", "C18", "C19"],
   "kind_free_text": "every position x replacement class, every prefix (crash point), suffixes, every key bit, every cipher-call failure index"},
 ]
 NOTES = ("All checks run /venv/bin/python -B against /repo's working tree (VERIF_REPO overrides the tree for self-tests). "
@@ -85,3 +85,11 @@ add("C18", "exploration", "full product of curves x hashes x encodings with Open
     "Full product of 17 curves x 5 hashes x 3 encodings x canonisation: random and deterministic library signatures verify in the library and in OpenSSL, OpenSSL signatures verify in the library, deterministic signatures equal an independent RFC 6979 + textbook ECDSA reference; EVERY single-bit change of the message and of the encoded signature (all bits on 5 curves quick / all 17 thorough, one bit per byte otherwise), other keys, out-of-range r/s and truncated/extended encodings must be rejected with BadSignatureError.",
     "OpenSSL 3 CLI and the RFC 6979 reference (pinned to RFC vectors) trusted; messages and keys are seed-derived.",
     "E1+E3", "DESIGN.md 4/C18")
+add("C20", "model_checking", "stateful DFS over all interleavings of the real RWLock under a controlled scheduler, TLC model graph replayed in lock-step, and exhaustive single-preemption exploration of shared curve objects",
+    "The real RWLock (threading.Lock replaced by a cooperative lock) is explored completely at lock-operation granularity for 2R+1W, 1R+2W and 2R+2W (thorough: 3R+2W, two rounds): mutual exclusion in every state, no deadlock state, two readers inside reachable; the complete TLC state graph of a TLA+ model of the algorithm is walked in lock-step with the implementation graph (every model edge replayed on the code, bijection of states). For shared curve objects thread A is preempted at every source-line event inside the library and thread B runs a complete operation on the same object; all results must equal the sequential ones.",
+    "Exploration granularity is lock operations / source lines under the GIL; P-256 scenarios are capped per source line in the quick tier (reported); harness programs are loop-free.",
+    "E4", "DESIGN.md 4/C20")
+ENGINES.append({"name": "E4 schedule explorer", "path": "vf/sched.py", "serves_properties": ["C20"],
+  "kind_free_text": "real threads under a baton scheduler: stateful DFS over all interleavings at lock-operation granularity with prefix replay and divergence detection; line-event preemption of one thread by a complete operation of another"})
+ENGINES.append({"name": "TLC cross-check", "path": "models/rwlock.tla", "serves_properties": ["C20"],
+  "kind_free_text": "TLA+ model of the reader-writer lock; TLC's dumped state graph is walked in lock-step with the implementation graph"})
